@@ -21,9 +21,9 @@ r_lib=$(cargo test --offline --lib 2>&1 | grep "test result" | tail -1)
 r_css=$(cargo test --offline --features css --lib 2>&1 | grep "test result" | tail -1)
 echo "demo clean : $r_clean"; echo "demo mutant: $r_mut"; echo "suite      : $r_lib"; echo "suite css  : $r_css"
 vc=/tmp/vm_$name; rm -rf $vc; mkdir -p $vc
-rsync -a --exclude work --exclude harness/target --exclude .git --exclude evidence /verif/ $vc/
+rsync -a --exclude work --exclude .git --exclude evidence --exclude seeded /verif/ $vc/; ln -s /verif/work/mc_cache $vc/work_mc_cache_link 2>/dev/null
 sed -i "s#path = \"/repo\"#path = \"$wt\"#" $vc/harness/Cargo.toml
-mkdir -p $vc/work $vc/evidence
+mkdir -p $vc/work $vc/evidence; rm -f $vc/work_mc_cache_link; [ -d /verif/work/mc_cache ] && ln -s /verif/work/mc_cache $vc/work/mc_cache
 res=""
 for p in "$@"; do
   (cd $vc && bin/check $p --tier quick > $vc/mut_$p.log 2>&1); rc=$?
